@@ -584,6 +584,27 @@ def clause_serializer(facts, rep, tier):
                     if rc not in ok_rcs:
                         bad = 'tree %s (%s): result %s, expected %s' % (text(t), kinds[0], rc, sorted(ok_rcs))
                         break
+            # histories: a serialization that fails inside an open container must not influence the next one
+            if bad is None:
+                follow = [Node('arr', None, [U()]), Node('obj', None, [S(1), Node('arr', None, [U(), U()])]), U()]
+                for t in etrees:
+                    if not t.kids:
+                        continue
+                    R2 = sm.Run(f, facts, tags)
+                    link(t)
+                    try:
+                        R2.serialize(t)
+                        for t2 in follow:
+                            t2 = link(sm.clone(t2))
+                            rc, out, stk = R2.serialize(t2)
+                            n += 1
+                            if rc != 0 or out.decode('latin-1') != text(t2):
+                                bad = 'after the failed serialization of %s, tree %s: result %s, text %r' % (text(t), text(t2), rc, out.decode('latin-1'))
+                                break
+                    except UndefinedBehaviour as ex:
+                        bad = 'after the failed serialization of %s: %s' % (text(t), ex)
+                    if bad:
+                        break
         except Unsupported as ex:
             raise AnalysisBroken('C06: SerializeImpl cannot be interpreted: %s' % ex)
         rep.extra['serializer_trees_explored'] = rep.extra.get('serializer_trees_explored', 0) + n
@@ -601,6 +622,8 @@ def run(rep, tier):
         clause_c(facts, rep)
         clause_d(facts, rep)
         clause_serializer(facts, rep, tier)
+        from . import c20 as _c20
+        _c20.clause_stable_pointer(facts, rep)   # no address inside the write buffer / parent stack is used after a push that may reallocate it
         # "parses back equal" needs the number writers to print the value they were given: the structural
         # obligations of the writers (shared with C07/C08) are re-checked here
         from . import c07
